@@ -50,7 +50,11 @@ type Truncate struct {
 
 // Call the function with the arguments provided.
 func (f *Truncate) Call(s *slip.Scope, args slip.List, depth int) slip.Object {
-	return truncate(s, f, args, depth)
+	values := truncate(s, f, args, depth)
+	values[0] = reduceNumber(values[0])
+	values[1] = reduceNumber(values[1])
+
+	return values
 }
 
 func truncate(s *slip.Scope, f slip.Object, args slip.List, depth int) slip.Values {
